@@ -346,11 +346,17 @@ def run(chk):
     chk.decide("compute_matching_coeffs_up" in calls_ and "invert_matching_coeffs" in calls_, "decoupling-table", fdn.qname,
                "the downward table is no longer the series inverse of the upward one", where=fdn.where, instance="down")
     # ---- (4) guards of compute ----------------------------------------------------------------------------------------------------------
-    _guards(chk, src)
+    for xv in (Fraction(1), Fraction(4), Fraction(1, 4)):      # the consistency conditions do not depend on the scale ratio
+        XIF2_GUARD[0] = xv
+        _guards(chk, src)
+    XIF2_GUARD[0] = Fraction(1)
     _patches(chk, src)
     _coupling_consistency(chk, src)
     chk.note(decoupling_cases=n_dec, files=["src/eko/msbar_masses.py", "src/eko/couplings.py"])
     chk.explanation = "fsolve lint; kernels by PE + series; decoupling by PE with symbolic coupling; RG-derived logs; guard truth table."
+
+
+XIF2_GUARD = [Fraction(1)]
 
 
 def _guards(chk, src):
@@ -393,7 +399,7 @@ def _guards(chk, src):
                 cp = Opaque()
                 cp.ref = (mu_ref, nf_ref)
                 try:
-                    pe.call(fc.qname, [ms, cp, (3, 0), "exact", [Fraction(1)] * 3], {})
+                    pe.call(fc.qname, [ms, cp, (3, 0), "exact", [Fraction(1)] * 3], {"xif2": XIF2_GUARD[0]})
                     raised = False
                 except PERaise as e:
                     raised = "ValueError" in str(e)
@@ -414,12 +420,14 @@ def _guards(chk, src):
                 n += 1
                 if raised != want:
                     bad += 1
-                    chk.fail("inconsistent-inputs-are-refused", fc.qname, f"nf_ref={nf_ref}, quark {hq}: Qm={qm}, m={m}, Qref={mu_ref}: refused={raised}, "
+                    chk.fail("inconsistent-inputs-are-refused", fc.qname, f"nf_ref={nf_ref}, quark {hq}: Qm={qm}, m={m}, Qref={mu_ref}, xif2={XIF2_GUARD[0]}: refused={raised}, "
                              f"required {want} (Qm on the side of Qref required by nf_ref; forward running for heavier, backward for lighter patches)",
-                             where=fc.where, instance=f"{nf_ref},{hq},{qm_vs_m},{qm_vs_ref}")
+                             where=fc.where, instance=f"{nf_ref},{hq},{qm_vs_m},{qm_vs_ref},xif2={XIF2_GUARD[0]}")
     if not bad:
-        chk.ok("inconsistent-inputs-are-refused", fc.qname, f"{n} orderings of (Qm, m, Qref) x quark x nf_ref", how="exhaustive PE")
+        chk.ok("inconsistent-inputs-are-refused", fc.qname, f"{n} orderings of (Qm, m, Qref) x quark x nf_ref, xif2={XIF2_GUARD[0]}", how="exhaustive PE")
     chk.floor("guard cases", n, 30)
+    if XIF2_GUARD[0] != 1:
+        return
     # the result is sorted, and a solution that is not in quark order is refused (evaluated: all three masses "given at their own
     # scale", so nothing is solved and the result is the input)
     for label, vals, want_raise in (("in quark order", (2, 5, 170), False), ("bottom below charm", (5, 2, 170), True), ("top below bottom", (2, 170, 5), True)):
@@ -604,6 +612,7 @@ def _coupling_consistency(chk, src):
 
     pe.overrides[f"{MM}.ker_exact"] = lambda p, a, k: 1
     q_from, q_to, x = dag.sym("q2m_ref"), dag.sym("q2_to"), dag.sym("xif2")
+    x_compute = Fraction(4)          # compute() compares scales: a concrete scale ratio there
     pe.call(fk.qname, [q_to, q_from, SCm(), x, 4])
     chk.need(len(asked) == 2, "ker_dispatcher no longer evaluates the coupling at its two end points")
     s_eval = []
@@ -634,14 +643,14 @@ def _coupling_consistency(chk, src):
     ms.c, ms.b, ms.t = Ref(Fraction(2), Fraction(2)), Ref(Fraction(51, 10), Fraction(10)), Ref(Fraction(170), Fraction(170))
     cp = Opaque()
     cp.ref = (Fraction(91), 5)
-    pe.call(fc.qname, [ms, cp, (3, 0), "exact", list(ks)], {"xif2": x})
+    pe.call(fc.qname, [ms, cp, (3, 0), "exact", list(ks)], {"xif2": x_compute})
     chk.need(built, "compute builds no coupling for a mass given away from its own scale")
     for i, kw in enumerate(built):
         tr = kw.get("thresholds_ratios")
         tr = tr.flat() if isinstance(tr, Arr) else list(tr) if isinstance(tr, (list, tuple)) else None
         ok = tr is not None and len(tr) == 3
         if ok:
-            ok, _ = dag.is_zero_fp([dag.sub(dag.tonode(t), dag.mul(k_, s_eval[0])) for t, k_ in zip(tr, ks)], chk.seed, 2)
+            ok, _ = dag.is_zero_fp([dag.sub(dag.tonode(t), dag.substitute(dag.mul(k_, s_eval[0]), {"xif2": x_compute})) for t, k_ in zip(tr, ks)], chk.seed, 2)
         chk.decide(ok, "coupling-walls-move-with-the-evaluation-scale", fc.qname,
                    f"the coupling used for the masses has threshold ratios {[dag.short(dag.tonode(t)) for t in (tr or [])]} but is evaluated at "
                    f"(mass scale)^2 * {dag.short(s_eval[0])}: required k * {dag.short(s_eval[0])}, otherwise it changes flavour number "
